@@ -29,13 +29,17 @@ type ResetProcessor struct {
 	target       interface{}
 	paths        []tree.Path
 	visitedNodes map[*yaml.Node][]string
+	// alias targets currently being expanded (recursion stack)
+	expanding map[*yaml.Node]bool
 }
 
 // UnmarshalYAML implement yaml.Unmarshaler
 func (p *ResetProcessor) UnmarshalYAML(value *yaml.Node) error {
 	p.visitedNodes = make(map[*yaml.Node][]string)
+	p.expanding = make(map[*yaml.Node]bool)
 	resolved, err := p.resolveReset(value, tree.NewPath())
 	p.visitedNodes = nil
+	p.expanding = nil
 	if err != nil {
 		return err
 	}
@@ -55,6 +59,12 @@ func (p *ResetProcessor) resolveReset(node *yaml.Node, path tree.Path) (*yaml.No
 		if err := p.checkForCycle(node.Alias, path); err != nil {
 			return nil, err
 		}
+		// an alias met again while its own target is being expanded is a cycle, whatever the paths look like
+		if p.expanding[node.Alias] {
+			return nil, fmt.Errorf("cycle detected: alias %q at path %s refers to a node that contains it", node.Value, path)
+		}
+		p.expanding[node.Alias] = true
+		defer delete(p.expanding, node.Alias)
 
 		return p.resolveReset(node.Alias, path)
 	}
